@@ -26,13 +26,13 @@ def build(prop):
             if p.returncode != 0:
                 return False, logs
     else:
-        cmd = ["cargo", "+nightly", "build", "--release", "--offline", "--target", "x86_64-unknown-linux-gnu", "--no-default-features", "--features", "std optimization"]
+        cmd = ["cargo", "+nightly", "build", "--profile", "relfast", "--offline", "--target", "x86_64-unknown-linux-gnu", "--no-default-features", "--features", "std optimization"]
         p = subprocess.run(cmd, cwd=SRC, env=dict(ENV, CARGO_TARGET_DIR=os.path.join(TGT, "asan"), RUSTFLAGS="-Zsanitizer=address"), capture_output=True, text=True)
         logs.append(("asan", p.returncode, p.stderr[-800:]))
         if p.returncode != 0:
             return False, logs
         # guard-page build (stable toolchain): the chunk buffer of the range decoder ends at an inaccessible page
-        cmd = ["cargo", "build", "--release", "--offline", "--no-default-features", "--features", "std optimization guard"]
+        cmd = ["cargo", "build", "--profile", "relfast", "--offline", "--no-default-features", "--features", "std optimization guard"]
         p = subprocess.run(cmd, cwd=SRC, env=dict(ENV, CARGO_TARGET_DIR=os.path.join(TGT, "guard")), capture_output=True, text=True)
         logs.append(("guard", p.returncode, p.stderr[-800:]))
         if p.returncode != 0:
@@ -42,13 +42,15 @@ def build(prop):
 
 def binary(name):
     if name == "asan":
-        return os.path.join(TGT, "asan", "x86_64-unknown-linux-gnu", "release", "vf")
+        return os.path.join(TGT, "asan", "x86_64-unknown-linux-gnu", "relfast", "vf")
+    if name == "guard":
+        return os.path.join(TGT, "guard", "relfast", "vf")
     return os.path.join(TGT, name, "release", "vf")
 
 
-def run(name, tier, seed, timeout=3000):
+def run(name, tier, seed, timeout=3000, guard="back"):
     p = subprocess.run([binary(name), tier, str(seed)], capture_output=True, text=True, timeout=timeout,
-                       env=dict(ENV, ASAN_OPTIONS="detect_leaks=0:abort_on_error=0:halt_on_error=1"))
+                       env=dict(ENV, ASAN_OPTIONS="detect_leaks=0:abort_on_error=0:halt_on_error=1", VF_GUARD=guard))
     return p.returncode, p.stdout.splitlines(), p.stderr
 
 
@@ -117,16 +119,17 @@ def main():
             failures.append({"id": "sanitizer-report:" + (head[0].split("AddressSanitizer:")[1].split()[0] if head and "AddressSanitizer:" in head[0] else f"exit{rc}"),
                              "what": "AddressSanitizer reported a memory error in the optimization build" if "AddressSanitizer" in err else f"the sanitizer build exited with {rc}",
                              "detail": {"report": head, "last_case_started": case_header(lines, len(lines) - 1) if lines else "", "next_case_index": (int(lines[-1].split()[1]) + 1) if lines and lines[-1].startswith("case") else None,
-                                        "how": f"RUSTFLAGS=-Zsanitizer=address cargo +nightly build --release --target x86_64-unknown-linux-gnu --features 'std optimization' (harness-feat); vf {tier} {seed}"}})
-        # the same workload in the guard-page build
-        rc2, lines2, err2 = run("guard", tier, seed)
-        evaluations += len(lines2)
-        dist["lines.guard"] = len(lines2)
-        if rc2 != 0 or not lines2 or not lines2[-1].startswith("end "):
-            failures.append({"id": f"guard-page-fault:exit{rc2}", "what": f"the guard-page build (chunk buffer placed in front of an inaccessible page) died with status {rc2}: a load past the end of the range decoder's buffer",
-                             "detail": {"last_case_started": case_header(lines2, len(lines2) - 1) if lines2 else "", "stderr": err2[-300:], "how": f"cargo build --release --features 'std optimization guard' (harness-feat); vf {tier} {seed}"}})
+                                        "how": f"RUSTFLAGS=-Zsanitizer=address cargo +nightly build --profile relfast --target x86_64-unknown-linux-gnu --features 'std optimization' (harness-feat; relfast = release without overflow checks / debug assertions); vf {tier} {seed}"}})
+        # the same workload in the guard-page build, once with the inaccessible page behind and once in front of every buffer
+        for gmode in ["back", "front"]:
+            rc2, lines2, err2 = run("guard", tier, seed, guard=gmode)
+            evaluations += len(lines2)
+            dist[f"lines.guard-{gmode}"] = len(lines2)
+            if rc2 != 0 or not lines2 or not lines2[-1].startswith("end "):
+                failures.append({"id": f"guard-page-fault:{gmode}:exit{rc2}", "what": f"the guard-page build (every buffer of a page or more placed directly {'in front of' if gmode == 'back' else 'behind'} an inaccessible page) died with status {rc2}: an access {'past the end' if gmode == 'back' else 'in front of the start'} of a buffer",
+                                 "detail": {"last_case_started": case_header(lines2, len(lines2) - 1) if lines2 else "", "stderr": err2[-300:], "how": f"cargo build --profile relfast --features 'std optimization guard' (harness-feat); VF_GUARD={gmode} vf {tier} {seed}"}})
         samples = [{"line": l} for l in lines[:6]]
-        rule = "harness-feat built with AddressSanitizer and the optimization feature; workload = C14's (all formats and options, inputs that fill the encoder window to within 0..9 bytes of its end, long streams with window moves, corrupted and truncated streams for the decoder fast paths); any sanitizer report is a violation; additionally a guard-page build (custom allocator: the 65531-byte chunk buffer ends at a PROT_NONE page, because neither ASan nor Miri see the inline-assembly loads) runs the same workload, a fault is a violation; distinct = (data kind, format, options)"
+        rule = "harness-feat built with AddressSanitizer and the optimization feature; workload = C14's (all formats and options, inputs that fill the encoder window to within 0..9 bytes of its end, long streams with window moves, corrupted and truncated streams for the decoder fast paths); any sanitizer report is a violation; both builds use the profile crate users run (no overflow checks, no debug assertions); additionally a guard-page build (custom allocator: every buffer of a page or more - chunk buffer, LZ window, dictionary, hash and probability tables - ends at, and in a second run starts behind, a PROT_NONE page, because neither ASan nor Miri see the inline-assembly loads) runs the same workload twice, a fault is a violation; distinct = (data kind, format, options)"
     rep = {"property": prop, "evaluations": evaluations, "distinct_nontrivial": len(distinct), "failures": failures, "model_requests": 0,
            "notes": notes, "rule": rule, "samples": samples, "dist": dist}
     json.dump(rep, open(os.path.join(outdir, f"{prop}.json"), "w"), indent=1)
